@@ -10,6 +10,26 @@ VERIF = os.path.dirname(os.path.dirname(os.path.abspath(__file__)))
 props = [json.loads(l) for l in open(os.path.join(VERIF, "properties.jsonl"))]
 NA = {}  # property id -> reason (genuinely not applicable)
 TECH = {}
+THOROUGH = {
+    "C01": "every selection of the six AMR variables (64) and of the variables of each mesh reader (3 x 8) in the body fold; Loader.load over 324 scenarios",
+    "C02": "every arithmetic and in-place operator over all ordered pairs of 15 units, on physical values",
+    "C03": "map() over 60 scenarios (thin/thick x ordered pairs of layer operations x resolution forms)",
+    "C04": "Loader.load over 324 scenarios (ndim x ncpu x levelmax x nboundary x level predicate x cpu_list)",
+    "C06": "every sequence of up to 3 dictionary operations on a fresh Datagroup against a reference dictionary with the insertion gate (1884 sequences)",
+    "C07": "every comparison over all ordered pairs of 15 units",
+    "C08": "Array.to and Vector.to over all ordered pairs of 15 units",
+    "C09": "v op w / Array / Quantity for + - * / over all ordered pairs of 10 units and 1-3 components",
+    "C10": "np.power (exponents -2..3, both orders), square, reciprocal, negative over 15 units; np.multiply / np.true_divide over all ordered unit pairs",
+    "C11": "map() over 60 scenarios (thin/thick x ordered pairs of layer operations x resolution forms)",
+    "C12": "Loader.load over 324 scenarios",
+    "C13": "every selection of variables in the body fold (88 cases); Loader.load over 324 scenarios",
+    "C14": "the particle header for every selection of six variables under two type assignments (128 cases)",
+    "C15": "Loader.load over 324 scenarios",
+    "C17": "every in-place operator over all ordered pairs of 15 units",
+    "C18": "every accepted axis string in every mix of upper and lower case (54 spellings)",
+    "C19": "the per-layer effect of the reduction operation in map() over 60 scenarios",
+    "C20": "every sequence of up to 3 dictionary operations on a fresh Datagroup against a reference dictionary (1884 sequences)",
+}
 checks, na = [], []
 for p in props:
     pid = p["id"]
@@ -29,8 +49,10 @@ for p in props:
             "category": "other",
             "text": "Static analysis of /repo's current source (no execution of osyris): necessary structural clauses of the "
                     "property are decided on every path / for every symbolic parameter. " + mod.EXPLANATION +
+                    (" THOROUGH tier additionally folds: " + THOROUGH[pid] + "; and reports the in-memory mutation self-test of this property's rules." if pid in THOROUGH
+                     else " THOROUGH tier: the quick rules plus the in-memory mutation self-test of this property's rules.") +
                     " A pass means these clauses hold, not that the behavioural property holds for all inputs.",
-            "design_ref": "DESIGN.md section 4, %s" % pid,
+            "design_ref": "DESIGN.md section 4 (%s: clauses) and section 11.4 (mechanism as built)" % pid,
         },
         "level_note": "Not decided by this check: " + mod.NOT_DECIDED + ". Trusted base: " + "; ".join(getattr(mod, "TRUSTED", ())) + ".",
         "technique": getattr(mod, "TECHNIQUE", "static analysis: AST path/dominance rules, table and sibling-agreement rules, "
@@ -44,16 +66,18 @@ m = {
               "baseline_off_cmd": "cd /repo && /venv/bin/python -m pytest -ra -q -p no:cacheprovider --timeout=900 --continue-on-collection-errors",
               "source_commits": [], "add_only": True},
     "engines": [{"name": "sa", "path": "/verif/sa", "serves_properties": [c["property_id"] for c in checks],
-                 "kind_free_text": "package-specific static analyser over Python syntax trees: resolved call graph, path "
-                                   "enumeration / dominance, abstract interpretation in small domains (canonical polynomial "
-                                   "forms, physical dimensions, provenance, dependence, limits, finite cases), oracle tables; "
-                                   "standard library only"}],
+                 "kind_free_text": "package-specific static analyser over Python syntax trees: an abstract interpreter (sa/models.py) that folds the "
+                                   "repository's own functions and classes over abstract tokens (buffer origins, unit monomials, exact polynomials / rational "
+                                   "functions, symbolic file positions) with models for numpy/pint/struct; plus symbolic evaluation of the numba kernels, "
+                                   "parallel-loop write classification, provenance / dependence / limit analyses, resolved who-may-call rules and oracle tables; "
+                                   "standard library only; no osyris code is imported or executed"}],
     "checks": checks,
     "not_applicable": na,
     "notes": "Technique family: static analysis. Exit 0 = every obligation discharged (known findings printed as KNOWN-FINDING); "
              "exit 1 + VIOLATION line = an obligation is violated by a named construct; exit 2 + ANALYSIS-ERROR = the code has a "
              "shape the analysis does not understand (fail closed, never a silent pass). The quick tier runs every rule of the "
-             "property; the thorough tier adds package-wide sweeps and the in-memory mutant battery (self-test).",
+             "property; the thorough tier widens the case spaces of the folds (complete products of units, selections, histories, scenarios: see "
+             "level_claimed of each check) and adds the in-memory mutant battery (self-test) of the property's rules.",
 }
 json.dump(m, open(os.path.join(VERIF, "MANIFEST.json"), "w"), indent=1)
 print("checks:", [c["property_id"] for c in checks], "not_applicable:", [n["property_id"] for n in na])
